@@ -54,6 +54,10 @@ def main():
         meta = json.loads((d / 'meta.json').read_text())
         checks = args.checks.split(',') if args.checks else \
             meta.get('expected_checks', [meta['property']])
+        if not checks:
+            print(f'{name}: SKIPPED (not expected to be caught: '
+                  f'{meta.get("detection", {}).get("note", "")[:80]})')
+            continue
         root = pathlib.Path(tempfile.mkdtemp(prefix='vp_seed_'))
         try:
             env = dict(os.environ)
